@@ -185,7 +185,12 @@ def replay_file(path):
     if not rp.get("scenario"):
         print(json.dumps(rp, indent=1, default=str)[:4000])
         return 0
-    rec = explore.replay(rp["scenario"], rp.get("params") or {}, rp.get("choices") or [])
+    if rp.get("strategy"):
+        from checks import pipeline_engine as pe
+
+        rec, _s = explore.execute(rp["scenario"], rp.get("params") or {}, pe._strategy(tuple(rp["strategy"])))
+    else:
+        rec = explore.replay(rp["scenario"], rp.get("params") or {}, rp.get("choices") or [])
     print(f"outcome={rec['outcome']} uncaught={rec['uncaught']}")
     for ev in rec["trace"]:
         print("  ", json.dumps({k: v for k, v in ev.items() if k != 'i'}, default=str))
